@@ -25,7 +25,7 @@ def run_cases(r, cases, tag='parse', limit_fail=50):
 
 # a small alphabet around environments, arguments and spacers: dense in the constructs where
 # the reader's look-ahead and token counting matter
-ENV_ALPHA = ['\\begin{a}', '\\end{a}', '\\end', ' ', '{a}', '[b]', '{', '}', 'x', '\\x', '\n', '$', '\\item',
+ENV_ALPHA = ['\\begin{a}', '\\end{a}', '\\end', ' ', '{a}', '[b]', '{', '}', 'x', 'a', '\\x', '\n', '$', '\\item',
              '\\begin{verbatim}', '\\end{verbatim}', '%', ']']
 
 
